@@ -94,6 +94,7 @@ def units(tier):
             for sh in range(2 if tier == 'quick' else 8):
                 Lc = L - (2 if (dt and tier != 'quick') else (1 if dt else 0)) - (1 if CONFIGS[ci][2] is not None else 0)
                 out.append({'fam': 'top', 'cfg': ci, 'dt': dt, 'L': Lc, 'shard': [sh, 2 if tier == 'quick' else 8]})
+    out.append({'fam': 'probe', 'tier': tier})
     for ci in range(len(CONFIGS)):
         if tier == 'quick' and CONFIGS[ci][0] is None and CONFIGS[ci][1] is None:
             continue
@@ -111,6 +112,14 @@ def _histories(L, closing):
 
 
 def cases(unit):
+    if unit['fam'] == 'probe':
+        # gaps of a day and more (datetime arithmetic), fractional-second gaps and timeouts, thousands of live keys
+        for gaps in itertools.product([1, 86400, 86401, 172799, 3], repeat=4):
+            yield {'fam': 'days', 'gaps': list(gaps)}
+        for gaps in itertools.product([0.1, 0.7, 0.2, 0.0], repeat=5):
+            yield {'fam': 'floats', 'gaps': list(gaps)}
+        yield {'fam': 'manykeys', 'keys': 300 if unit['tier'] == 'quick' else 4200}
+        return
     a, i, c, inc = CONFIGS[unit['cfg']]
     sh, n = unit['shard']
     if unit['fam'] == 'top':
@@ -133,7 +142,67 @@ def viol(fam, sym, detail):
     return {'signature': 'C07|%s|%s' % (fam, sym), 'detail': detail}
 
 
+def run_probe(case, acc):
+    import rx
+    import rxsci as rs
+    from ..bytelevel import RawSink
+    fam = case['fam']
+    out = []
+    if fam in ('days', 'floats'):
+        if fam == 'days':
+            ts, t = [], EPOCH
+            for g in case['gaps']:
+                t = t + datetime.timedelta(seconds=g)
+                ts.append(t)
+            cfgs = [(datetime.timedelta(seconds=3), None), (None, datetime.timedelta(seconds=2)),
+                    (datetime.timedelta(days=1), datetime.timedelta(seconds=2)), (None, datetime.timedelta(hours=25))]
+        else:
+            ts, t = [], 0.0
+            for g in case['gaps']:
+                t = t + g
+                ts.append(t)
+            cfgs = [(0.8, None), (None, 0.3), (0.8, 0.3), (0.3, 0.7)]
+        items = list(enumerate(ts))
+        for active, inactive in cfgs:
+            sink = RawSink()
+            sink.subscribe_to(rx.from_(items).pipe(rs.state.with_memory_store([
+                rs.data.time_split(time_mapper=lambda x: x[1], active_timeout=active, inactive_timeout=inactive,
+                                   pipeline=[rs.ops.map(lambda x: x[0]), rs.data.to_list()])])))
+            acc.evals += 1
+            acc.events += len(items) + 1
+            acc.traces += 1
+            exp = sessions(items, lambda x: x[1], None, active, inactive, None, True)
+            exp = [[x[0] for x in w] for w in exp]
+            got = [w for w in sink.items if w != []]
+            if sink.error is not None or got != exp:
+                out.append(viol(fam, 'windows-' + str(harness.diff_kind(exp, got)), {'timestamps': [str(x) for x in ts], 'active': str(active),
+                                                                                    'inactive': str(inactive), 'expected': exp, 'observed': got,
+                                                                                    'error': repr(sink.error)}))
+                break
+        acc.nontrivial.add(fast_hash(repr(case)))
+        return out
+    nk = case['keys']
+    # every key: timestamps 0, 1, 2, 4 (inactive timeout 2 -> windows [0,1,2] and [4]); round robin over all keys
+    items = [(k, t) for t in (0, 1, 2, 4) for k in range(nk)]
+    sink = RawSink()
+    sink.subscribe_to(rx.from_(items).pipe(rs.state.with_memory_store([
+        rs.ops.group_by(lambda x: x[0], [rs.data.time_split(time_mapper=lambda x: x[1], inactive_timeout=2,
+                                                            pipeline=[rs.ops.map(lambda x: x[1]), rs.data.to_list()])])])))
+    acc.evals += 1
+    acc.events += len(items) + 1
+    acc.traces += 1
+    from collections import Counter
+    got = Counter(map(repr, sink.items))
+    want = Counter({repr([0, 1, 2]): nk, repr([4]): nk})
+    if sink.error is not None or got != want:
+        out.append(viol('manykeys', 'windows-differ', {'keys': nk, 'observed_counts': dict(list(got.items())[:6]), 'error': repr(sink.error)}))
+    acc.count('many_live_keys')
+    return out
+
+
 def run_case(case, acc):
+    if case['fam'] in ('days', 'floats', 'manykeys'):
+        return run_probe(case, acc)
     a, i, c, inc = CONFIGS[case['cfg']]
     fam = case['fam']
     out = []
